@@ -85,6 +85,10 @@ SENSITIVITY = {
     "r13b": ("seeded/r13b/patch.diff", "C17", ["result-mismatch", "entry-point-mismatch"], "A: Linear remembers 'layouts agree' in an AtomicBool; later interp_into with a contiguous, differently ordered target"),
     "r13c": ("seeded/r13c/patch.diff", "C18", ["wrong-target", "callback-invariant"], "A: 2-D general path walks xs/ys with Zip (column-major when both are F-ordered) against row-major targets"),
     "r13d": ("seeded/r13d/patch.diff", "C18", ["panic-invented", "concurrent-operation-affected", "error-changed"], "A: per-thread nesting counter leaks one level per strategy panic; after 64 every query on the thread panics"),
+    "r14a": ("seeded/r14a/patch.diff", "C17", ["result-mismatch", "entry-point-mismatch", "reference-unstable"], "A: thread-local accelerator table; Drop on a foreign thread frees the same-numbered entry of another interpolator"),
+    "r14b": ("seeded/r14b/patch.diff", "C17", ["result-mismatch", "entry-point-mismatch"], "A: last-segment hint validated with a truncating integer quotient (i64 slots, knot spacing > 1)"),
+    "r14c": ("seeded/r14c/patch.diff", "C18", ["build-invariant", "build-invoked-on-invalid-input"], "A: builder decision table with setter orders (.x(bad).y(bad).x(good))"),
+    "r14d": ("seeded/r14d/patch.diff", "C18", ["build-invariant", "build-invoked-on-invalid-input"], "A: default axis of an element type whose usize conversion is inexact (low-precision newtype)"),
     "M16": ("mutants/M16.diff", "C17", ["answers-differ-between-processes", "process-history-dependence"], "A: evaluation order picked once per process from the hasher's random seed"),
 }
 # seeded/r7d is kept but not listed: its author reads C18 as forbidding one-point axes for strategies
